@@ -301,6 +301,8 @@ class LazyArr:
     def __setitem__(self, key, val):
         spec = self._parse_key(key)
         base, bspec = self._compose(spec)
+        if MUT_HOOK[0] is not None:
+            MUT_HOOK[0](base)      # (C16: a write into an array that was handed to another thread earlier)
         tshape = tuple(sp[3] for sp in spec if sp[0] == 's')
         if isinstance(val, real_np.ndarray):
             val = from_numpy(val)
@@ -904,6 +906,7 @@ class ShimNP:
 
 
 ALWAYS_LAZY = [False]
+MUT_HOOK = [None]
 
 
 def _arange_fp(start, stop, step):
